@@ -21,7 +21,7 @@ def expandItems (s : String) : Option (List Bytes) :=
 def sip (key : Bytes) (d : Bytes) : UInt64 := Prim.siphash24Key key d
 
 def filterObs (f : Gcs.Filter) : String :=
-  s!"{f.n} {f.p} {f.modulusNP.toNat} {Bytes.tok f.data}"
+  s!"{f.n} {f.p} {Bytes.tok f.data}"
 
 /-- same results as `Gcs.Match/ZipMatchAny/HashMatchAny/MatchAny` (unfold the definitions), but the filter is
     unpacked and, for the hash strategy, decoded once per filter instead of once per call -/
